@@ -215,7 +215,7 @@ def RPost (src : Bytes) (segs : List Segment) (c : BCur) (res : RRes) : Prop :=
   ∃ n r' c', res = .ok (n, r') ∧ RS src segs r' c' ∧ c.p ≤ c'.p ∧ c.ln ≤ c'.ln ∧
     ∀ nd, n = some nd → BCur.remaining segs c' + 1 ≤ BCur.remaining segs c ∧ chain c.p c'.p (segsOf nd) ∧
       (match nd with
-        | .delim _ d => 1 ≤ d.length
+        | .delim _ d => 1 ≤ d.length ∧ d.seg.stop = d.seg.start + d.length
         | .label .. => False
         | nd => wf false nd = true)
 
@@ -253,7 +253,7 @@ theorem parseEmphasis_post (F : SegFacts src segs) (Z : ∀ s ∈ segs, s.paddin
     refine ⟨_, r', c', rfl, e2, by omega, e4, ?_⟩
     intro nd hn
     simp at hn; subst hn
-    refine ⟨by omega, ?_, by simpa using (by omega : 1 ≤ dd.length)⟩
+    refine ⟨by omega, ?_, ⟨by simpa using (by omega : 1 ≤ dd.length), by simp only [Segment.withStop]; omega⟩⟩
     simp only [segsOf, hpos, Segment.withStop]
     exact chain_single (by simp only; omega) (by simp only; omega) (by simp only; omega)
 
